@@ -334,6 +334,10 @@ SIMP_EXTRA = [
     "exists I$i S$s (I$i = X and S$s = X and p(S$s))", "exists S$s I$i (S$s = X and I$i = X and p(I$i))", "exists I$i S$s (I$i = X and S$s = X)",
     "forall X X1 (t(X, X1) or exists X q(X))", "forall X X1 (exists X (q(X)) or t(X, X1))", "forall X (p(X) or exists X (q(X)) or exists X (hp(X)))",
     "forall V1 (exists X (V1 = X + 1 and q(X)) or exists X (V1 = X + 2 and p(X)) or exists X (V1 = X + 3 and hp(X)))",
+    # double negation in front of every binary connective, with negated / doubly negated / plain operands on either side
+    "not not (p(1) <- not q(1))", "not not (not p(1) <- q(1))", "not not (p(1) -> not q(1))", "not not (not p(1) -> q(1))", "not not (p(X) <- not not q(X))",
+    "not not (r <- q(1))", "not not (not r and p(1))", "not not (not r or p(1))", "not not (p(1) <-> not q(1))", "not not not (p(1) <- not q(1))",
+    "not not forall X (p(X) <- not q(X))", "not not exists X (not p(X) and q(X))", "q(1) and not not (p(1) <- not q(1))",
     "not p(1) -> p(1)", "p(1) -> not p(1)", "not r -> r", "(not p(X) -> p(X)) -> q(X)", "forall X (not p(X) -> p(X))", "not not r -> r", "r or not r",
 ]
 
